@@ -4,6 +4,8 @@ import Soa.Model.IndexRun
 import Soa.Extracted.Generic
 import Soa.Model.Cap
 import Soa.Model.Views
+import Soa.Model.SkelSem
+import Soa.Extracted.Skel
 /-!
 # Scenario interpreter: one operation per line, one observation line per side
 
@@ -13,6 +15,21 @@ that cannot be parsed yields `bad-op`.
 -/
 namespace Soa.Exec
 open Soa
+
+/-! the element-level vector methods as read from the skeletons extracted from /repo on this run
+    (`Soa/Extracted/Skel.lean`); where a skeleton can no longer be read the hand-written model is used, so that the
+    search for a failing input goes on (the proof obligations `Sk.sk_*` / `Sk.*_tie` are broken in that case) -/
+namespace Gen
+open Soa.Sk Soa.Extracted
+def push (dr : Bool) (c e : Cols) : Model.Out := (runElem dr sk_PVec_push c [.elem e]).getD (Model.push c e)
+def insert (dr : Bool) (c : Cols) (i : Nat) (e : Cols) : Model.Out := (runElem dr sk_PVec_insert c [.nat i, .elem e]).getD (Model.insert dr c i e)
+def replace (dr : Bool) (c : Cols) (i : Nat) (e : Cols) : Model.Out := (runElem dr sk_PVec_replace c [.nat i, .elem e]).getD (Model.replace dr c i e)
+def remove (dr : Bool) (c : Cols) (i : Nat) : Model.Out := (runElem dr sk_PVec_remove c [.nat i]).getD (Model.remove c i)
+def swapRemove (dr : Bool) (c : Cols) (i : Nat) : Model.Out := (runElem dr sk_PVec_swap_remove c [.nat i]).getD (Model.swapRemove c i)
+def pop (dr : Bool) (c : Cols) : Model.Out := (runElem dr sk_PVec_pop c []).getD (Model.pop c)
+def append (dr : Bool) (c d : Cols) : Model.Out := (runElem dr sk_PVec_append c [.cont d]).getD (Model.append c d)
+def splitOff (dr : Bool) (c : Cols) (i : Nat) : Model.Out := (runElem dr sk_PVec_split_off c [.nat i]).getD (Model.splitOff c i)
+end Gen
 
 structure Ctx where
   shape : Shape
@@ -184,31 +201,31 @@ def stepCore (cx : Ctx) (w : World) (ws : List String) : StepOut :=
     match parseReg r, t.toNat? with
     | some r, some t =>
       let e := sh.elem t
-      elemOp r (Model.push (getI r) e) (Spec.push (getS r) e.rows) false e.flat
+      elemOp r (Gen.push dr (getI r) e) (Spec.push (getS r) e.rows) false e.flat
     | _, _ => badOp w
   | ["pop", r] =>
     match parseReg r with
-    | some r => elemOp r (Model.pop (getI r)) (Spec.pop (getS r)) true []
+    | some r => elemOp r (Gen.pop dr (getI r)) (Spec.pop (getS r)) true []
     | none => badOp w
   | ["insert", r, i, t] =>
     match parseReg r, i.toNat?, t.toNat? with
     | some r, some i, some t =>
       let e := sh.elem t
-      elemOp r (Model.insert dr (getI r) i e) (Spec.insert dr (getS r) i e.rows) false e.flat
+      elemOp r (Gen.insert dr (getI r) i e) (Spec.insert dr (getS r) i e.rows) false e.flat
     | _, _, _ => badOp w
   | ["replace", r, i, t] =>
     match parseReg r, i.toNat?, t.toNat? with
     | some r, some i, some t =>
       let e := sh.elem t
-      elemOp r (Model.replace dr (getI r) i e) (Spec.replace dr (getS r) i e.rows) false e.flat
+      elemOp r (Gen.replace dr (getI r) i e) (Spec.replace dr (getS r) i e.rows) false e.flat
     | _, _, _ => badOp w
   | ["remove", r, i] =>
     match parseReg r, i.toNat? with
-    | some r, some i => elemOp r (Model.remove (getI r) i) (Spec.remove (getS r) i) false []
+    | some r, some i => elemOp r (Gen.remove dr (getI r) i) (Spec.remove (getS r) i) false []
     | _, _ => badOp w
   | ["swap_remove", r, i] =>
     match parseReg r, i.toNat? with
-    | some r, some i => elemOp r (Model.swapRemove (getI r) i) (Spec.swapRemove (getS r) i) false []
+    | some r, some i => elemOp r (Gen.swapRemove dr (getI r) i) (Spec.swapRemove (getS r) i) false []
     | _, _ => badOp w
   | ["truncate", r, k] =>
     match parseReg r, k.toNat? with
@@ -222,7 +239,7 @@ def stepCore (cx : Ctx) (w : World) (ws : List String) : StepOut :=
     match parseReg r, parseReg q with
     | some r, some q =>
       if r == q then badOp w else
-      let oi := Model.append (getI r) (getI q)
+      let oi := Gen.append dr (getI r) (getI q)
       let os := Spec.append (getS r) (getS q)
       let regs := setReg (setReg w.regs r oi.st) q (oi.other.getD (getI q))
       let rows := setReg (setReg w.rows r os.st) q (os.other.getD (getS q))
@@ -232,7 +249,7 @@ def stepCore (cx : Ctx) (w : World) (ws : List String) : StepOut :=
   | ["split_off", r, at_, q] =>
     match parseReg r, at_.toNat?, parseReg q with
     | some r, some at_, some q =>
-      let oi := Model.splitOff (getI r) at_
+      let oi := Gen.splitOff dr (getI r) at_
       let os := Spec.splitOff (getS r) at_
       let (regs, oiObs) : List Cols × Obs := match oi.panicked, oi.ret with
         | false, some t =>
